@@ -243,8 +243,10 @@ theorem C05_client_response_delivered (send : Option Enc) (acc : List Call) (sha
 
 /-- Whatever the HTTP status of the response (200 or not; `callHttp` follows `create_response`,
 `Streaming::new_response` and `infer_grpc_status` for the others): a response whose
-`grpc-encoding` is not enabled for receiving is refused with UNIMPLEMENTED, and no other
-response is — the encoding check comes before anything the HTTP status decides. -/
+`grpc-encoding` is not enabled for receiving is refused with UNIMPLEMENTED, and — UNDER THE GUARD `hp`, the
+same as in `C05_client_refuses_unsupported`: the peer's own status, which the client passes on verbatim, is not
+itself such a refusal — no other response is.  The encoding check comes before anything the HTTP status
+decides.  Without the guard the "no other" half is false: `C05_client_refusal_needs_the_peer_guard`. -/
 theorem C05_client_refuses_unsupported_any_http_status (send : Option Enc) (acc : List Call)
     (shape : Shape) (umdEnc umdAcc : List Bytes) (k http : Nat) (resp : CliResp)
     (hp : resp.peerCls ≠ .unsupported) :
@@ -252,20 +254,38 @@ theorem C05_client_refuses_unsupported_any_http_status (send : Option Enc) (acc 
       (callHttp { send, accept := configure true acc } shape umdEnc umdAcc k http resp) = true :=
   callHttp_refuse _ _ (configure_agree true acc) shape umdEnc umdAcc k http resp hp
 
+/-- The guard `hp` of the two refusal theorems is needed: a peer (another tonic, say) whose own trailers carry
+the refusal status — UNIMPLEMENTED of class `unsupported` — for a response the client has no reason to refuse
+(`grpc-encoding` absent) makes the caller see that status, which the clause "no other response is refused"
+cannot tell from the client's own refusal. -/
+theorem C05_client_refusal_needs_the_peer_guard :
+    ¬ (∀ (http : Nat) (resp : CliResp),
+        cliRefuse [.gzip] resp
+          (callHttp { send := none, accept := configure true [.en .gzip] } .unary [] [] 1 http resp) = true) := by
+  intro h
+  have := h 200 { encVals := [], hdrStatus := none, frames := [], trlStatus := some 12, peerCls := .unsupported }
+  revert this
+  decide
+
 /-- What the client sends and advertises does not depend on how the peer's answer looks (its HTTP
-status included): the two client statements hold for every HTTP status. -/
+status included): the two client statements hold for every HTTP status UNDER THE SAME GUARDS as their
+HTTP-200 forms `C05_client_sends_configured` / `C05_client_advertises_accepted` — the caller's own metadata
+carries no `grpc-encoding` (first conjunct; its `grpc-accept-encoding` values `umdAcc` are arbitrary), resp. no
+`grpc-accept-encoding` (second conjunct; its `grpc-encoding` values `umdEnc` are arbitrary).  Without these
+guards both statements are false for every status: `C05_client_headers_fail_with_forged_metadata`. -/
 theorem C05_client_request_any_http_status (send : List Enc) (acc : List Call) (shape : Shape)
-    (k http : Nat) (resp : CliResp) :
+    (umdEnc umdAcc : List Bytes) (k http : Nat) (resp : CliResp) :
     cliSend (sendOf send)
-      (callHttp { send := sendOf send, accept := configure true acc } shape [] [] k http resp) = true ∧
+      (callHttp { send := sendOf send, accept := configure true acc } shape [] umdAcc k http resp) = true ∧
     cliAdvertise (enabledAfter acc)
-      (callHttp { send := sendOf send, accept := configure true acc } shape [] [] k http resp) = true := by
-  obtain ⟨h1, h2, h3⟩ := callHttp_request { send := sendOf send, accept := configure true acc } shape [] [] k http resp
+      (callHttp { send := sendOf send, accept := configure true acc } shape umdEnc [] k http resp) = true := by
   constructor
-  · rw [cliSend_congr _ _ _ h1 h3]
-    exact call_send { send := sendOf send, accept := configure true acc } shape [] k resp
-  · rw [cliAdvertise_congr _ _ _ h2]
-    exact call_advertise _ _ (configure_agree true acc) shape [] k resp
+  · obtain ⟨h1, _, h3⟩ := callHttp_request { send := sendOf send, accept := configure true acc } shape [] umdAcc k http resp
+    rw [cliSend_congr _ _ _ h1 h3]
+    exact call_send { send := sendOf send, accept := configure true acc } shape umdAcc k resp
+  · obtain ⟨_, h2, _⟩ := callHttp_request { send := sendOf send, accept := configure true acc } shape umdEnc [] k http resp
+    rw [cliAdvertise_congr _ _ _ h2]
+    exact call_advertise _ _ (configure_agree true acc) shape umdEnc k resp
 
 /-- A client that looked at the HTTP status first (skipping the encoding check for a non-200
 response, `callHttpLax`) would violate the refusal clause: accept = {gzip}, a 503 whose head says
